@@ -14,6 +14,7 @@ import (
 	"log"
 	"net/http"
 	"net/http/httptest"
+	"reflect"
 	"sort"
 	"strings"
 	"time"
@@ -355,3 +356,16 @@ func (k *kit) names() []string {
 }
 
 func secs(f float64) time.Duration { return time.Duration(f * float64(time.Second)) }
+
+// cleanupLimiter runs the limiter's hourly cleanup once (found by method name so the
+// harness does not depend on the concrete type's package-private API).
+func (k *kit) cleanupLimiter() {
+	if k.lb.rateLimiter == nil {
+		return
+	}
+	v := reflect.ValueOf(k.lb.rateLimiter)
+	_ = v
+	if c, ok := k.lb.rateLimiter.(interface{ VerifCleanup() }); ok {
+		c.VerifCleanup()
+	}
+}
